@@ -50,8 +50,10 @@ def oracle(case):
         from ..oracle.scopecheck import norm_msg
         return ('output-not-compilable', norm_msg(c)), {'out': out[:1200], 'error': c}
     try:
-        a = canon.canon(api.parse(src), opts)
-        b = canon.canon(api.parse(out), opts)
+        tree = api.parse(src)
+        doc_used = canon.uses_doc_name(tree)
+        a = canon.canon(tree, opts, doc_used)
+        b = canon.canon(api.parse(out), opts, doc_used)
     except RecursionError:
         return None
     d = strict_ast.diff(a, b)
